@@ -19,8 +19,47 @@ import (
 // (a dropped connection at the end of an upload), then behaves normally: saveStore retries.
 type flakyStore struct {
 	dstore.Store
-	mu   *sync.Mutex
-	seen map[string]int
+	mu    *sync.Mutex
+	seen  map[string]int
+	reads map[string]int
+	// cutAt: position (fraction in 1/8) at which the first read of each object fails
+	cutAt int
+}
+
+type cutReader struct {
+	r    io.ReadCloser
+	left int
+}
+
+func (c *cutReader) Read(p []byte) (int, error) {
+	if c.left <= 0 {
+		return 0, fmt.Errorf("injected: connection reset while downloading")
+	}
+	if len(p) > c.left {
+		p = p[:c.left]
+	}
+	n, err := c.r.Read(p)
+	c.left -= n
+	return n, err
+}
+func (c *cutReader) Close() error { return c.r.Close() }
+
+func (f *flakyStore) OpenObject(ctx context.Context, name string) (io.ReadCloser, error) {
+	r, err := f.Store.OpenObject(ctx, name)
+	if err != nil {
+		return nil, err
+	}
+	f.mu.Lock()
+	f.reads[name]++
+	n := f.reads[name]
+	f.mu.Unlock()
+	if n == 1 && f.cutAt > 0 {
+		b, _ := io.ReadAll(r)
+		r.Close()
+		r2, _ := f.Store.OpenObject(ctx, name)
+		return &cutReader{r: r2, left: len(b) * f.cutAt / 8}, nil
+	}
+	return r, nil
 }
 
 func (f *flakyStore) WriteObject(ctx context.Context, base string, r io.Reader) error {
@@ -40,7 +79,7 @@ func (f *flakyStore) SubStore(sub string) (dstore.Store, error) {
 	if err != nil {
 		return nil, err
 	}
-	return &flakyStore{Store: s, mu: f.mu, seen: f.seen}, nil
+	return &flakyStore{Store: s, mu: f.mu, seen: f.seen, reads: f.reads, cutAt: f.cutAt}, nil
 }
 
 func flakyCases(tier, mode string) int {
@@ -53,14 +92,14 @@ func flakyCases(tier, mode string) int {
 	return 16
 }
 
-// runFlaky: a snapshot whose first upload attempt fails must, after the retry the code performs,
+// runFlaky: a snapshot whose first upload attempt fails (and whose first download is cut) must, after the retry the code performs,
 // load back with the full content (the retry must upload the content again, not an empty body).
 func runFlaky(c *fw.Case) {
 	base, err := dstore.NewStore("memory://flaky", "", "", true)
 	if err != nil {
 		panic(err)
 	}
-	fs := &flakyStore{Store: base, mu: &sync.Mutex{}, seen: map[string]int{}}
+	fs := &flakyStore{Store: base, mu: &sync.Mutex{}, seen: map[string]int{}, reads: map[string]int{}, cutAt: c.R.Intn(8)}
 	cfg, err := store.NewConfig("s", 5, "h", pbsubstreams.Module_KindStore_UPDATE_POLICY_SET, "string", fs)
 	if err != nil {
 		panic(err)
@@ -72,6 +111,14 @@ func runFlaky(c *fw.Case) {
 		got := map[string][]byte{}
 		loaded.Iter(func(k string, v []byte) error { got[k] = v; return nil })
 		c.Count("flaky_write_roundtrips", 1)
+		var real uint64
+		for k, v := range got {
+			real += uint64(len(k) + len(v))
+		}
+		if loaded.SizeBytes() != real {
+			c.Violation("C10/roundtrip/size-after-read-retry", fmt.Sprintf("%s snapshot loaded after a failed first download reports SizeBytes()=%d but holds %d bytes", kind, loaded.SizeBytes(), real), map[string]any{"keys": n})
+			return
+		}
 		if len(got) != len(want) {
 			c.Violation("C10/roundtrip/content-lost-after-write-retry", fmt.Sprintf("%s snapshot: first upload attempt failed, the retry succeeded, but the file loads back %d keys instead of %d", kind, len(got), len(want)), map[string]any{"keys": n})
 			return
@@ -97,6 +144,9 @@ func runFlaky(c *fw.Case) {
 	}
 	file, w, err := full.Save(30)
 	if err == nil {
+		// the squasher queues the write and goes on merging into the same store: what is written must be the store AT Save time
+		full.ApplyDelta(&pbsubstreams.StoreDelta{Operation: pbsubstreams.StoreDelta_CREATE, Key: "zzz-added-after-save", NewValue: []byte("later")})
+		full.ApplyDelta(&pbsubstreams.StoreDelta{Operation: pbsubstreams.StoreDelta_DELETE, Key: "k000", OldValue: want["k000"]})
 		err = w.Write(ctx)
 	}
 	if err != nil {
